@@ -92,6 +92,7 @@ let eval inp obs =
        | BOpen (OOk rt), OPut _ -> push ("ok:" ^ route_tok rt ^ ":raw1")
        | BOpen r, _ -> (match r with OConflict | OReassign -> nt := true | _ -> ()); push (ores_tok r)
        | BGet (OOk rt, v), _ ->
+         if v <> None then nt := true;
          push ("ok:" ^ route_tok rt ^ ":" ^ (match v with None -> "~" | Some x -> h x))
        | BGet (r, _), _ -> push (ores_tok r)
        | BVerify ok, _ ->
@@ -186,6 +187,6 @@ let eval inp obs =
   in
   walk ops res_toks;
   ignore !have_prod;
-  { default_verdict with model_obs; spec_ok = Some !ok; nontrivial = !nt || List.length orc_toks > 0; note = !why }
+  { default_verdict with model_obs; spec_ok = Some !ok; nontrivial = !nt || List.exists (fun t -> String.length t > 2 && String.sub t 0 2 = "m=") orc_toks; note = !why }
 
 let () = run eval
